@@ -54,3 +54,30 @@ check('C18',
       'solver-decided equalities for all values.',
       'quantities (pint) and DatabaseEmitter outside; saved_data filled '
       'directly')
+check('C04',
+      'One path runs the same composite under every listing order (all '
+      'permutations of processes and steps; topology, ports and initial-state '
+      'keys reversed/rotated) with the same symbolic constant timesteps and '
+      'deltas, and the solver shows all emitted rows equal; it also shows that '
+      'invocations at equal (symbolic) times share one apply counter and read '
+      'equal values equal to the last emitted row.',
+      'constant timesteps; commuting updaters only; integer time')
+check('C05',
+      'Every DAG on up to 3 (4) labelled flow steps (edge flags decided by the '
+      'solver-driven forking) plus two legacy derivers, in flat / nested / '
+      'split-compartment layouts and two declaration orders, under symbolic '
+      'timestep, delta and run length: the log of the real engine is parsed '
+      'into phases and the solver shows v_j equal to a reference evaluation of '
+      'the DAG in every row.',
+      'DAG dimension is boolean (exhaustive within S); run-time structural '
+      'changes are C10')
+check('C12',
+      'Symbolic schedules (two processes, constant symbolic timesteps, free '
+      'deltas), symbolic emit flags via schema / store_schema / branch-level '
+      '_emit, emit_step 1..3(4): the solver shows strictly increasing time '
+      'keys, one row per batch (emit_step 1), row content = flagged leaves of '
+      'the store (own traversal) and rows of a coarse emit_step being a '
+      'sub-sequence of the emit_step-1 run executed in the same path; the real '
+      'RAMEmitter/orjson path runs with values concretised by forking.',
+      'integer time and emit_step; quantities outside; structural histories '
+      'not in this harness')
